@@ -386,3 +386,72 @@ def r01_7(ctx, rr):
         rr.ob(ok_r, key=key)
         if not ok_r:
             rr.violate(key, "%s: a sub-block counter must be the ones so far minus the upper count minus the block's absolute counter (`past_ones - upper_count - absolute`); rank_unchecked computes upper + absolute + rel, so dropping one of the two terms makes every rank beyond the first 2^32 bits (or the first sub-block) wrong" % b.key, F.loc(rels[0]) if rels else b.span)
+
+
+@rule("R01.8", props=["C01", "C14"], floor=8, title="rank_unchecked / rank_hinted count only bits below `pos`: whole words strictly before the word of `pos`, that word under the low mask of pos % 64")
+def r01_8(ctx, rr):
+    """rank(pos) is defined on the first `pos` bits; the bits of the backend at or after `len` are not part of
+    the vector (C14) and the counters are built without them (R01.4). A reader that counts a whole word at or
+    after the word of `pos`, or the word of `pos` under anything but the low mask of `pos % 64` (e.g. scanning
+    backwards from the next counter), reads positions >= pos -- possibly >= len, where stale bits live."""
+    F = ctx.F()
+    bodies = F.find(r"^<rank_sel::rank_small::RankSmall<\d+, \d+, B, C1, C2> as traits::rank_sel::RankUnchecked>::rank_unchecked$")
+    if len(bodies) != 5:
+        raise AnchorMissing("expected the five RankSmall rank_unchecked bodies, found %d" % len(bodies))
+    bodies.append(F.one(r"^<rank_sel::rank9::Rank9<B, C> as traits::rank_sel::RankUnchecked>::rank_unchecked$"))
+    bodies.append(F.one(r"^<bits::bit_vec::BitVec<B> as traits::rank_sel::RankHinted<64>>::rank_hinted$"))
+
+    def is_read(t):
+        return (t[0] == "call" and t[1].endswith("get_unchecked") and len(t[2]) == 2) or t[0] == "index"
+
+    def read_index(t):
+        return t[2][1] if t[0] == "call" else t[2]
+
+    def is_word_size(x):
+        return x == ("int", 64) or (x[0] == "def" and x[1].endswith("BITS"))
+
+    for b in bodies:
+        pos_p = [p for p in b.params if p.get("k") == "PBind" and p["name"] != "self"][0]
+        pos = ("var", pos_p["name"], pos_p["id"])
+        found = []
+
+        def on_node(W, n, K, found=found, pos=pos):
+            if n.get("k") == "MethodCall" and n["name"] in ("count_ones", "count_zeros") and W.debug_depth == 0:
+                t = canon_masks(W.expand(W.T.term(n["recv"])))
+                if not mentions(t, is_read):
+                    return
+                ok, why = False, "the counted word `%s` is neither a whole word before the word of pos nor masked to the bits below pos %% 64" % tshow(t)[:160]
+                if t[0] == "op" and t[1] == "&":
+                    for m, w in ((t[2], t[3]), (t[3], t[2])):
+                        if m[0] == "lowmask" and m[1][0] == "op" and m[1][1] == "%" and m[1][2] == pos and is_word_size(m[1][3]) and is_read(w):
+                            ok = True
+                elif is_read(t):
+                    i = read_index(t)
+                    # (i + 1) * 64 <= pos, or i < pos / 64
+                    for a in K.atoms:
+                        if a[0] == "le" and a[3] <= 0 and a[2] == pos and a[1][0] == "op" and a[1][1] == "*":
+                            fs = (a[1][2], a[1][3])
+                            if any(is_word_size(x) for x in fs) and any(x == mk_op("+", i, ("int", 1)) for x in fs):
+                                ok = True
+                    for ws in (("int", 64), ("def", "core::num::<impl usize>::BITS")):
+                        if K.entails(atom_le(i, mk_op("/", pos, ws), True)):
+                            ok = True
+                    if not ok:
+                        why = "the whole word `%s` is counted although it is not established to lie strictly before the word of pos (established: %s)" % (tshow(t)[:120], "; ".join(K.show()[:5]) or "nothing")
+                found.append((n, ok, why))
+        Walker(F, b, on_node=on_node).run()
+        if not found and "RankSmall<2, 9" not in b.key and "rank_hinted" not in b.key and "Rank9" not in b.key:
+            # the sparse variants may leave all the counting to rank_hinted
+            pass
+        for n, ok, why in found:
+            rr.instances += 1
+            key = "%s:counts-only-below-pos" % short_fn_local(b.key)
+            rr.ob(ok, key=key, sample={"fn": b.key, "count": show(F, n)[:100]})
+            if not ok:
+                rr.violate(key, "%s: %s" % (b.key, why), F.loc(n))
+
+
+def short_fn_local(key):
+    from r_guards import short_fn
+    m = re.search(r"RankSmall<(\d+), (\d+)", key)
+    return short_fn(key) + ("<%s,%s>" % (m.group(1), m.group(2)) if m else "")
